@@ -68,7 +68,12 @@ func (z *Interpreter) SetExternalLibs(libs []*r.Library) *Interpreter {
 
 ///// load functions //////
 
+// LoadScript - an interpreter that executes the given script. The receiver is left as it
+// is: it may be shared by requests that are served concurrently, each of which loads its
+// own code.
 func (z *Interpreter) LoadScript(source []rune) *Interpreter {
+	loaded := *z
+	z = &loaded
 	// set moduleCodeFinder
 	z.moduleCodeFinder = func(isMain bool, info r.LibNameInfo) ([]rune, error) {
 		// suppose the sourceCode is the mainModule ONLY
@@ -86,7 +91,11 @@ func (z *Interpreter) LoadScript(source []rune) *Interpreter {
 	return z
 }
 
+// LoadFile - an interpreter that executes the given file (the receiver is left as it is,
+// see LoadScript)
 func (z *Interpreter) LoadFile(file string) *Interpreter {
+	loaded := *z
+	z = &loaded
 	// set moduleCodeFinder
 	z.moduleCodeFinder = func(isMain bool, info r.LibNameInfo) ([]rune, error) {
 		// get dir & fileName -
